@@ -31,8 +31,6 @@ def check(prog, run):
     run.rule("R6", "duration statistic: the end time of a track whose presentation times are not monotone in queue order is the maximum over every queued sample")
     run.rule("R5", "statistics provenance: video_frames<-len(video queue), audio_frames<-len(audio queue), bytes_written<-counter, duration<-pure function of both queues; built only on the Ok edge of finalize")
     run.rule("R7", "the statistics count accepted frames only: a refused write leaves no trace in the queues, durations and last-delta fields they are computed from (C05.R1 instances)")
-    from . import c05
-    c05.purity_rule(prog, run, "R7")
     try:
         cx = common.Ctx(prog)
     except AnchorMissing as e:
@@ -342,6 +340,10 @@ def r5(cx, run):
     vq, aq = next(iter(vq)), next(iter(aq))
     run.extra["queues"] = {"video": vq, "audio": aq}
     queue_append_only(cx, run, "R5", (vq, aq))
+    # R7: only stores into what the statistics are computed from matter here (the queues and the last-delta fields paired with them)
+    from . import c05
+    stat_state = {vq, aq} | set(last_delta_pairing(cx, (vq, aq)).values())
+    c05.purity_rule(cx.prog, run, "R7", only=lambda store: str(store).split(".")[0] in stat_state)
     sites = []
     for p, b in cx.live.items():
         for blk in b["blocks"]:
